@@ -117,8 +117,9 @@ where
     /// When this event is later triggered, the backend implementation of `handle_event` will be
     /// called.
     pub fn register_listener(&self, fd: RawFd, ev_type: EventSet, data: u64) -> Result<()> {
-        // `data` range [0...num_queues] is reserved for queues and exit event.
-        if data <= self.backend.num_queues() as u64 {
+        // `data` range [0...num_queues] is reserved for queues and exit event, and the event is
+        // handed to the backend as a `u16`: a larger value would be truncated into another id.
+        if data <= self.backend.num_queues() as u64 || data > u64::from(u16::MAX) {
             Err(io::Error::from_raw_os_error(libc::EINVAL))
         } else {
             self.register_event(fd, ev_type, data)
@@ -131,7 +132,7 @@ where
     /// dropped.
     pub fn unregister_listener(&self, fd: RawFd, ev_type: EventSet, data: u64) -> Result<()> {
         // `data` range [0...num_queues] is reserved for queues and exit event.
-        if data <= self.backend.num_queues() as u64 {
+        if data <= self.backend.num_queues() as u64 || data > u64::from(u16::MAX) {
             Err(io::Error::from_raw_os_error(libc::EINVAL))
         } else {
             self.unregister_event(fd, ev_type, data)
